@@ -89,4 +89,9 @@ theorem idx0_cat (a b : Bytes) :
     · simp [hb]
     · simp [hb]
 
+/-- adjacent zero blocks merge (used by the generator as a rewrite: `cat (zeros a) (zeros b)` is built as `zeros (a+b)`) -/
+theorem zeros_cat (a b : Int) (ha : 0 ≤ a) (hb : 0 ≤ b) : cat (zeros a) (zeros b) = zeros (a + b) := by
+  simp only [cat, zeros]
+  rw [Int.toNat_add ha hb, List.replicate_add]
+
 end T0
